@@ -7,6 +7,7 @@ import (
 	"sort"
 	"strconv"
 	"strings"
+	"testing/iotest"
 
 	"pault.ag/go/debian/control"
 
@@ -90,6 +91,17 @@ func readThreeWays(data string) string {
 	a, b, c := dumpParas(all), dumpParas(step), dumpParas(fromSlice)
 	if a != b || a != c {
 		return "entrypoints-differ " + a + " " + b + " " + c
+	}
+	// how the bytes arrive must not matter: one byte per Read, and data together with io.EOF
+	for _, rd := range []io.Reader{iotest.OneByteReader(strings.NewReader(data)), iotest.DataErrReader(strings.NewReader(data))} {
+		r3, err := control.NewParagraphReader(rd, nil)
+		if err != nil {
+			return "entrypoints-differ slow reader: " + err.Error()
+		}
+		slow, err := r3.All()
+		if err != nil || dumpParas(slow) != a {
+			return fmt.Sprintf("entrypoints-differ slow reader: %s %v, all at once: %s", dumpParas(slow), err, a)
+		}
 	}
 	return "ok " + a
 }
